@@ -282,7 +282,7 @@ class Exec:
         self.ground = z3.Solver(); self.ground.set('timeout', int(os.environ.get('PYVC_GROUND_MS', 300)))     # quantifier-free facts only: fast branch pruning
         self.timeout_ms = timeout_ms
         self.st = State(); self.old = None
-        self.spec = 0; self.nofork = 0; self.bseq = 0; self.awaited = set()
+        self.spec = 0; self.nofork = 0; self.bseq = 0; self.awaited = set(); self.assumed = {}; self.assumed_stack = []; self.qdepth = 0
         self.facts_log = None       # when not None: list collecting assumed facts (for generalisation)
         self.binders = []           # bound variables in scope (comprehension elements)
         self.exc_stack = []
@@ -296,11 +296,17 @@ class Exec:
     # ---------------- solver plumbing
     def assume(self, f):
         if z3.is_true(f): return
+        fid = f.get_id()
+        if fid not in self.assumed:
+            self.assumed[fid] = f      # (pins the AST) lets prove() discharge a goal that is literally one of the hypotheses
+            if self.assumed_stack: self.assumed_stack[-1].append(fid)
         self.solver.add(f); self.npc += 1
         if not has_quant(f): self.ground.add(f)
         if self.facts_log is not None: self.facts_log.append(f)
-    def push(self): self.solver.push(); self.ground.push()
-    def pop(self): self.solver.pop(); self.ground.pop()
+    def push(self): self.solver.push(); self.ground.push(); self.assumed_stack.append([])
+    def pop(self):
+        self.solver.pop(); self.ground.pop()
+        for fid in self.assumed_stack.pop(): self.assumed.pop(fid, None)
     def feasible(self, f=None, full=False):
         if f is not None and has_quant(f): full = True
         if full:
@@ -463,6 +469,7 @@ class Exec:
         if depth > 6: return None
         m = repo.module(rel)
         for b in clsnode.bases:
+            if isinstance(b, ast.Subscript): b = b.value      # Generic base: BasePool[C]
             bn = ast.unparse(b)
             try:
                 obj = self.lookup_module(rel, bn.split('.')[0])
@@ -672,7 +679,9 @@ class Exec:
             # code mode: speculative pure evaluation under the guard, else fork
             r = self.try_pure(lambda: self.val(self.eval(nxt)), guard=go)
             if r is not None:
-                cur = vite(go, r, cur)
+                try: cur = vite(go, r, cur)
+                except Unsupported:      # operands of unrelated types (`seq and flag`): only the truth value is meaningful
+                    cur = vite(go, vbool(truth(r)), vbool(truth(cur)))
             else:
                 if self.branch(go): cur = self.eval(nxt)
                 else: return cur
@@ -741,6 +750,8 @@ class Exec:
             self.awaited.add(id(n.value))
         v = self.eval(n.value)
         if isinstance(v, CoroV): raise Unsupported('await of a stored coroutine object')
+        if isinstance(v, V) and isinstance(v.ty, TRef) and (v.ty.cls + '.__await__') in self.w.ext_methods:
+            return self.ext_call(ExtMethod(v, v.ty.cls + '.__await__'), [], {}, n)      # awaiting an awaitable object: a yield point
         return v
 
     def e_Compare(self, n):
@@ -773,6 +784,8 @@ class Exec:
         raise Unsupported('compare op')
 
     def ord_terms(self, a, b):
+        if isinstance(a.ty, TOpt) and not isinstance(b.ty, TOpt): a = self.co(a, a.ty.inner)      # None in an ordering comparison raises TypeError
+        if isinstance(b.ty, TOpt) and not isinstance(a.ty, TOpt): b = self.co(b, b.ty.inner)
         def num(v):
             if v.ty in (TInt, TBool): return coerce(v, TInt).t
             if v.ty is TFloat: return v.t
@@ -1072,6 +1085,7 @@ class Exec:
             return coerce(self.materialize(self.iter_of(v)), ty)
         try: return coerce(v, ty)
         except Unsupported:
+            if v.ty is TExc and isinstance(ty, TRef) and ty.universal: return V(ty, fresh('excobj', sort_of(ty)))      # an exception object passed on as a value
             if isinstance(v.ty, TOpt) and not isinstance(ty, TOpt):
                 if not self.spec and self.branch(v.t[0], exceptional=True): self.raise_exc('TypeError')
                 return coerce(v.t[1], ty)
@@ -1385,8 +1399,28 @@ class Exec:
             if m:
                 fr = FuncRef(m[0], m[1].name + '.__init__', m[2], cls=m[1])
                 self.call_func(fr, [r] + args, kwargs, node)
+            elif any('dataclass' in ast.unparse(d) for d in cref.node.decorator_list):
+                # generated __init__ of a dataclass: fields in declaration order, defaults from the class body
+                flds = [st for st in cref.node.body if isinstance(st, ast.AnnAssign) and isinstance(st.target, ast.Name)]
+                pos = list(args)
+                for st in flds:
+                    nm = st.target.id
+                    if nm not in self.w.classes[ty.cls]: continue
+                    fty = self.w.ty(self.w.classes[ty.cls][nm])
+                    if pos: v_ = pos.pop(0)
+                    elif nm in kwargs: v_ = kwargs[nm]
+                    elif st.value is not None: v_ = self.eval(st.value)
+                    else: raise Unsupported('dataclass %s: no value for field %s' % (cref.name, nm))
+                    self.heap_write(r, nm, self.co(v_, fty))
             return r
         raise Unsupported('constructor of undeclared class %s' % cref.name)
+
+    def havoc_alloc(self, facts):
+        """other code may construct objects meanwhile: the set of existing objects only grows"""
+        if self.st.alloc is None: self.st.alloc = self.vf.alloc0()
+        na = fresh('alloc', self.st.alloc.sort()); x_ = z3.Const('ax!', self.st.alloc.sort().domain())
+        facts.append(z3.ForAll([x_], z3.Implies(z3.Select(self.st.alloc, x_), z3.Select(na, x_))))
+        self.st.alloc = na
 
     def alloc(self, ty):
         r = fresh('new_' + ty.cls, sort_of(ty))
@@ -1557,7 +1591,8 @@ class Exec:
         # havoc modifies
         facts = []
         for mname in c.modifies:
-            if mname in c.state:
+            if mname == '$alloc': self.havoc_alloc(facts)
+            elif mname in c.state:
                 nv = havoc(w.ty(c.state[mname]), mname, facts)
                 self.st.env[mname] = nv; env[mname] = nv
             elif '.' in mname:
@@ -1610,9 +1645,13 @@ class Exec:
         pnames = list(c['params'])
         pos = [a for a in args if not isinstance(a, tuple)]
         vals = {}
-        for nme, a in zip(pnames, pos): vals[nme] = self.co(a, self.w.ty(c['params'][nme]))
+        def co_arg(a, ty):
+            if isinstance(a, (CoroV, BoundMethod, FuncRef, LambdaV)) and isinstance(ty, TRef) and ty.universal:
+                return V(ty, fresh('pyobj', sort_of(ty)))      # a coroutine / callable handed to outside code: an opaque object
+            return self.co(a, ty)
+        for nme, a in zip(pnames, pos): vals[nme] = co_arg(a, self.w.ty(c['params'][nme]))
         for k, a in kwargs.items():
-            if k in c['params']: vals[k] = self.co(a, self.w.ty(c['params'][k]))
+            if k in c['params']: vals[k] = co_arg(a, self.w.ty(c['params'][k]))
         for nme in pnames:
             if nme not in vals:
                 if nme in c.get('optional', ()): continue
@@ -1620,6 +1659,8 @@ class Exec:
         ordinal = self.call_counts.get(f.key, 0); self.call_counts[f.key] = ordinal + 1
         site = '%s@%s#%d' % (f.key, self.frame_name(), ordinal)
         env = dict(vals)
+        for bname, bexpr in (c.get('bind') or {}).items():      # names of the contract bound to expressions of the caller's frame
+            env[bname] = self.val(self.eval_spec_val(bexpr))
         if f.recv is not None: env['self'] = f.recv
         me = self.frame.get('contract')
         gspec = (me.call_ghost if me else {}).get(f.key) or {}
@@ -1640,6 +1681,7 @@ class Exec:
         pre = self.st.copy(); pre.env = dict(env)
         facts = []
         for mname in c.get('modifies', []):
+            if mname == '$alloc': self.havoc_alloc(facts); continue
             if mname in self.st.env and isinstance(self.st.env[mname], V):
                 self.st.env[mname] = havoc(self.st.env[mname].ty, mname, facts); env[mname] = self.st.env[mname]
             elif '.' in mname:
@@ -1725,6 +1767,8 @@ class Exec:
             if upd:
                 self.vf.note_ghost(c, ast.unparse(st))
                 for name, expr in upd:
+                    if not name.isidentifier():      # ghost field of a heap object, e.g. 'block.conns[conn].g_b'
+                        self.assign(ast.parse(name, mode='eval').body, self.val(self.eval_spec_val(expr))); continue
                     self.st.env[name] = coerce(self.val(self.eval_spec_val(expr)), self.val(self.st.env[name]).ty)
 
     def s_Pass(self, st): pass
@@ -1886,7 +1930,11 @@ class Exec:
         if c is None or ordn not in c.loops: return None, ordn
         lc = c.loops[ordn]
         fp = self.vf.fingerprint(st)
-        if lc.get('fingerprint') and _norm_fp(lc['fingerprint']) != _norm_fp(fp):
+        fp_c = lc.get('fingerprint')
+        if fp_c and fp_c.endswith('...'):      # prefix fingerprint: the rest of the loop header may change without making the contract stale
+            if not _norm_fp(fp).startswith(_norm_fp(fp_c[:-3])):
+                raise StaleContract('loop %d of %s: contract fingerprint %r does not match code %r' % (ordn, c.key, lc['fingerprint'], fp))
+        elif lc.get('fingerprint') and _norm_fp(lc['fingerprint']) != _norm_fp(fp):
             raise StaleContract('loop %d of %s: contract fingerprint %r does not match code %r' % (ordn, c.key, lc['fingerprint'], fp))
         return lc, ordn
 
@@ -1940,7 +1988,22 @@ class Exec:
             elif nme in self.st.env: pass
             elif nme in lc.get('vars', {}):
                 self.st.env[nme] = havoc(self.w.ty(lc['vars'][nme]), nme, facts)
-        for hf in vf.assigned_fields(self, st):
+        hfs = set(vf.assigned_fields(self, st))
+        for mname in lc.get('modifies', []):      # declared in the sidecar: state touched through callees / yields inside the loop
+            if mname == '$alloc': self.havoc_alloc(facts)
+            elif '.' in mname: hfs.add(mname)
+            elif mname in self.st.env and isinstance(self.st.env[mname], V): self.st.env[mname] = havoc(self.st.env[mname].ty, mname, facts)
+        # ghost / closure state modified by contracts called in the loop
+        for n_ in ast.walk(st):
+            if isinstance(n_, ast.Call):
+                fname = n_.func.id if isinstance(n_.func, ast.Name) else (n_.func.attr if isinstance(n_.func, ast.Attribute) else None)
+                for c_ in self.w.contracts.values():
+                    if fname and c_.qual.split('.')[-1] == fname:
+                        for m_ in c_.modifies:
+                            if m_ == '$alloc': self.havoc_alloc(facts)
+                            elif '.' not in m_ and m_ in c_.state and m_ in self.st.env and isinstance(self.st.env[m_], V) and m_ not in targets:
+                                self.st.env[m_] = havoc(self.st.env[m_].ty, m_, facts)
+        for hf in sorted(hfs):
             cls, fld = hf.split('.')
             fty = self.w.ty(self.w.classes[cls][fld]); self.heap_field(cls, fld, fty)
             self.st.heap[hf] = fresh('heap_' + cls + '_' + fld, z3.ArraySort(sort_of(TRef(cls)), sort_of(fty)))
